@@ -1,6 +1,7 @@
 """C19 — the compiler proper is memory-safe, terminating and exits only 0, 1 or 2 (DESIGN 3/C19)."""
 import glob
 import os
+import re
 import tempfile
 
 from hypothesis import strategies as st
@@ -497,6 +498,37 @@ def place_check(case, ctx):
     return res
 
 
+# ----------------------------------------------------------------------------- C10's catalogue as crash inputs
+# C10 sets a case aside when the compiler crashes on it ("C19's subject"); so that no such case is lost, every catalogue entry is
+# judged here, each followed by uses of what it declares (member lookups, sizeof, an object of the type).
+def catalogue_enum(ctx):
+    from . import c10_catalogue as cat
+    for i in range(len(cat.CATALOGUE)):
+        yield {"entry": i}
+
+
+def catalogue_check(case, ctx):
+    from . import c10, c10_catalogue as cat
+    res = Result()
+    res.n = 1
+    text, scope, tag = c10.instantiate(case["entry"], 8000 + case["entry"])
+    srcs = [c10.build_unit(text, scope, "plain", [], [], with_vio=True)]
+    m = re.search(r"\b(struct|union) (e\d+)\b", text)
+    if m and scope == "file":
+        # walk over the members of the type the entry declares
+        tail = "\n%s %s cv; unsigned long cs = sizeof cv; %s %s cw = { 0 }; void cu(%s %s *p) { *p = cv; (void)p->zz_no_such_member; }\n" % ((m.group(1), m.group(2)) * 3)
+        srcs.append(srcs[0] + tail)
+        srcs.append(srcs[0] + "\nlong co = __builtin_offsetof(%s %s, zz_no_such_member);\n" % (m.group(1), m.group(2)))
+    for k, src in enumerate(srcs):
+        judge(ctx, src.encode("utf-8", "surrogateescape"), "x86_64-sysv", [], res, "catalogue:%d:%d" % (case["entry"], k))
+        if res.fail:
+            break
+    _nontrivial(ctx, srcs[0], res)
+    res.labels.append("catalogue")
+    res.sample = {"source": "catalogue", "entry": text[:120]}
+    return res
+
+
 def stress_enum(ctx):
     top_nest = 1 << 10
     top_len = 1 << 12 if ctx.tier == "quick" else 1 << 20
@@ -745,6 +777,7 @@ def sources(ctx):
     return [
         Source("stress", stress_check, enum=stress_enum),
         Source("placement", place_check, enum=place_enum),
+        Source("catalogue", catalogue_check, enum=catalogue_enum),
         Source("iofault", io_check, enum=io_enum),
         Source("trunc", trunc_check, enum=trunc_enum),
         Source("mutate", mutate_check, strategy=mutate_strategy, examples={"quick": 40000, "thorough": 600000}),
